@@ -44,9 +44,9 @@ PLAN = {
     ),
     "C02": dict(
         gen=dict(quick=[SYS(25)], thorough=[SYS(400)]),
-        traces=[("sweep_c02", (1, 2)), ("long_c02", (1, 2)), ("c02", (1, None)), ("c02all", (None, 4)), ("giant_c02", (None, 1))],
-        codecs={"giant_c02": ["iupac", "miupac"]},
-        seeds=dict(quick=1, thorough=5), seeded={"giant_c02": False},
+        traces=[("sweep_c02", (1, 2)), ("long_c02", (1, 2)), ("c02", (1, None)), ("c02all", (None, 4)), ("giant_c02", (None, 1)), ("c02alt", (1, 1))],
+        codecs={"c02alt": ["mdna", "amino", "x3"], "giant_c02": ["iupac", "miupac"]},
+        seeds=dict(quick=1, thorough=5), seeded={"c02alt": False, "giant_c02": False},
         mc=dict(quick=["MC_C02"]),
         rule="eq / hash / mapget events over content pairs {equal, one symbol changed first/last/random, "
              "prefix, suffix, empty, +1} in every representation (Seq, &Seq, SeqSlice, &SeqSlice at offsets, "
@@ -73,11 +73,12 @@ PLAN = {
     ),
     "C05": dict(
         traces=[("c05", (1, 1)), ("c05multi", (1, 1))], seeded={"c05": False, "c05multi": False},
-        codecs={"c05": BUILTIN, "c05multi": BUILTIN},
+        codecs={"c05": CODECS, "c05multi": CODECS},
         mc=dict(quick=["MC_C05"]),
         exhaustive=True,
-        rule="one cell event per (codec, byte) for all 7 x 256 cells in canonical order (a skipped cell is a "
-             "rejection) plus one codecinfo event per codec; both build profiles; finite domain enumerated completely",
+        rule="one cell event per (codec, byte) for all 9 x 256 cells (seven built-in codecs, two derived in the harness) "
+             "in canonical order (a skipped cell is a rejection) plus one codecinfo event per codec; both build profiles; "
+             "finite domain enumerated completely",
     ),
     "C06": dict(
         traces=[("sweep_c06", (1, 2)), ("long_c06", (1, 2)), ("c06", (400, 3000)), ("giant_c06", (None, 1))],
